@@ -145,7 +145,7 @@ def run(ctx):
                 ctx.fail(case, 'expression %r is not anchored' % r_)
             fc = R.finding_class(''.join(kept), opts)
             originals = [s for s in strings if s is not None]
-            if not any(cr.match(s) for s in kept + originals):
+            if not any(cr.match(s) for s in originals):
                 ctx.fail(case, 'expression %r matches none of the examples %r' % (r_, kept[:8]),
                          finding='c13-portable-digits' if fc else None)
     for it in range(40 if ctx.quick else 1500):
